@@ -468,7 +468,13 @@ class DiffXReader(object):
                 validate.
         """
         fp = self._fp
-        content = fp.read(length)
+
+        try:
+            content = fp.read(length)
+        except OverflowError:
+            raise DiffXParseError(
+                'The section length %s is too large' % length,
+                linenum=self._linenum)
 
         # First, determine the line endings that we're going to be working
         # with.
